@@ -99,7 +99,7 @@ def generate(rng, tier):
     cases = []
     sp = [(c, fl(x), fl(y)) for (c, x, y) in structured_points()]
     for (c, x, y) in sp:
-        cases.append(mk_all((x, y), "structured:" + c.split("@")[0].split("-")[0].rstrip("+")))
+        cases.append(mk_all((x, y), "structured:" + c.split("@")[0]))
         cases += mk_rt((x, y), "structured")
         cases.append(mk_polar((x, y), "polar"))
     g = rng.fork("rand")
@@ -263,7 +263,9 @@ def cert_points(rng, tier):
         def take(c, k):
             pool = g.shuffle([p for p in cats[c] if not on_cut(name, (p[1], p[2]))])
             return pool[:k]
-        for c in ("q1", "q2", "q3", "q4"): chosen += take(c, 2)
+        heavy = CUT_AXIS.get(name, "") != ""
+        for c in ("q1", "q2", "q3", "q4"): chosen += take(c, 1)                     # every quadrant
+        if heavy: chosen += take(g.choice(["q1", "q2", "q3", "q4"]), 2)[:1]         # functions with cuts: one more
         for c in ("axis+x", "axis-x", "axis+y", "axis-y", "bp0"): chosen += take(c, 1)
         for c in ("bp+1", "bp-1", "bp+i", "bp-i"): chosen += take("%s@%d" % (c, g.choice(BP_SCALES)), 1)
         # both sides of the axis that carries the function's cuts, at every distance 2^-10, 2^-20, 2^-30 (same abscissa on
@@ -272,6 +274,7 @@ def cert_points(rng, tier):
         pairs = {"real": ("cut-real-above", "cut-real-below"), "imag": ("cut-imag-right", "cut-imag-left")}
         for a in ("real", "imag"):
             ca, cb = pairs[a]
+            if ax == "" and a == "imag" and g.chance(1, 2): continue     # functions without cuts: near-axis points are ordinary points
             scales = CUT_SCALES if a == ax else (g.choice(CUT_SCALES),)
             for k in scales:
                 i = g.below(len(cats["%s@%d" % (ca, k)]))
